@@ -44,6 +44,15 @@ func (where Where) Build(builder Builder) {
 	buildExprs(where.Exprs, builder, AndWithSpace)
 }
 
+var sqlWhitespace = strings.NewReplacer("\t", " ", "\n", " ", "\r", " ", "\v", " ", "\f", " ")
+
+// containsAndOr reports whether the upper-cased raw SQL contains an AND / OR operator. Tabs and
+// line breaks delimit the keywords just like spaces do.
+func containsAndOr(sql string) bool {
+	sql = sqlWhitespace.Replace(sql)
+	return strings.Contains(sql, AndWithSpace) || strings.Contains(sql, OrWithSpace)
+}
+
 func buildExprs(exprs []Expression, builder Builder, joinCond string) {
 	wrapInParentheses := false
 
@@ -62,22 +71,22 @@ func buildExprs(exprs []Expression, builder Builder, joinCond string) {
 				if len(v.Exprs) == 1 {
 					if e, ok := v.Exprs[0].(Expr); ok {
 						sql := strings.ToUpper(e.SQL)
-						wrapInParentheses = strings.Contains(sql, AndWithSpace) || strings.Contains(sql, OrWithSpace)
+						wrapInParentheses = containsAndOr(sql)
 					}
 				}
 			case AndConditions:
 				if len(v.Exprs) == 1 {
 					if e, ok := v.Exprs[0].(Expr); ok {
 						sql := strings.ToUpper(e.SQL)
-						wrapInParentheses = strings.Contains(sql, AndWithSpace) || strings.Contains(sql, OrWithSpace)
+						wrapInParentheses = containsAndOr(sql)
 					}
 				}
 			case Expr:
 				sql := strings.ToUpper(v.SQL)
-				wrapInParentheses = strings.Contains(sql, AndWithSpace) || strings.Contains(sql, OrWithSpace)
+				wrapInParentheses = containsAndOr(sql)
 			case NamedExpr:
 				sql := strings.ToUpper(v.SQL)
-				wrapInParentheses = strings.Contains(sql, AndWithSpace) || strings.Contains(sql, OrWithSpace)
+				wrapInParentheses = containsAndOr(sql)
 			}
 		}
 
@@ -195,7 +204,7 @@ func (not NotConditions) Build(builder Builder) {
 				e, wrapInParentheses := c.(Expr)
 				if wrapInParentheses {
 					sql := strings.ToUpper(e.SQL)
-					if wrapInParentheses = strings.Contains(sql, AndWithSpace) || strings.Contains(sql, OrWithSpace); wrapInParentheses {
+					if wrapInParentheses = containsAndOr(sql); wrapInParentheses {
 						builder.WriteByte('(')
 					}
 				}
@@ -230,7 +239,7 @@ func (not NotConditions) Build(builder Builder) {
 			e, wrapInParentheses := c.(Expr)
 			if wrapInParentheses {
 				sql := strings.ToUpper(e.SQL)
-				if wrapInParentheses = strings.Contains(sql, AndWithSpace) || strings.Contains(sql, OrWithSpace); wrapInParentheses {
+				if wrapInParentheses = containsAndOr(sql); wrapInParentheses {
 					builder.WriteByte('(')
 				}
 			}
